@@ -515,10 +515,8 @@ fn core_checks(ctx: &Ctx, col: &Collector) {
     let mut tone_jobs: Vec<(usize, u16, u8)> = Vec::new();
     for ch in 0..3 {
         for tp in 0..=4095u16 {
-            let pick = ctx.thorough() || tp < 64 || tp > 4032 || tp % 7 == 0;
-            if pick {
-                tone_jobs.push((ch, tp, 0));
-            }
+            // all periods in both tiers (the whole sweep costs well under a second)
+            tone_jobs.push((ch, tp, 0));
         }
         for tp in [0u16, 1, 0x0FF, 0x100, 0x5A5] {
             for high in [0x10u8, 0xF0] {
@@ -602,7 +600,6 @@ fn core_checks(ctx: &Ctx, col: &Collector) {
             }
         }
     }
-    ctx.sample(json!({"part":"core","example":"tone B TP=440","result": format!("{:?}", tone_case(1, 440, 0, false).is_ok())}));
     ctx.sample(json!({"part":"core","example":"documented level per step, shape 10","levels": (0..70).map(|s| env_pattern(10, s)).collect::<Vec<_>>() }));
 }
 
@@ -684,7 +681,7 @@ fn api_bounded_case(rate: usize, p: usize, millis: usize, verbose: bool) -> Resu
 }
 
 /// Frequency of a single tone from hysteresis threshold crossings of the left channel.
-fn api_tone_case(rate: usize, tp: u16, millis: usize, verbose: bool) -> Result<Option<u64>, Fail> {
+fn api_tone_case(rate: usize, tp: u16, millis: usize, verbose: bool) -> Result<Option<(u64, f64)>, Fail> {
     guarded("api:next_sample", || {
         let f = FCLK as f64 / (16.0 * tp as f64);
         // judged only where the tone is representable with 10 % margin in both sampling stages:
@@ -752,7 +749,7 @@ fn api_tone_case(rate: usize, tp: u16, millis: usize, verbose: bool) -> Result<O
                 ),
             ));
         }
-        Ok(Some(fnv_mix(fnv(&[7]), (rate as u64) << 16 | tp as u64)))
+        Ok(Some((fnv_mix(fnv(&[7]), (rate as u64) << 16 | tp as u64), est)))
     })
 }
 
@@ -773,7 +770,12 @@ fn api_checks(ctx: &Ctx, col: &Collector) {
         } else {
             let tp = API_TPS[p - PROGRAMMES.len()];
             match api_tone_case(rate, tp, millis, false) {
-                Ok(Some(h)) => ctx.outcome(h),
+                Ok(Some((h, est))) => {
+                    ctx.outcome(h);
+                    if rate == 44100 && tp == 100 {
+                        ctx.sample(json!({"part":"api","rate":rate,"tone_period":tp,"measured_hz":est,"fclk_over_16tp_hz":FCLK as f64 / 1600.0}));
+                    }
+                }
                 Ok(None) => {
                     skipped.fetch_add(1, std::sync::atomic::Ordering::Relaxed);
                 }
@@ -899,14 +901,13 @@ fn measure_tables() -> Tables {
     t
 }
 
-const POST_TICKS: usize = 2048;
 
 struct HistOut {
     digest: u64,
     nontrivial: bool,
 }
 
-fn hist_case(ops: &[Op], tb: &Tables, verbose: bool) -> Result<HistOut, Fail> {
+fn hist_case(ops: &[Op], tb: &Tables, post_ticks: usize, verbose: bool) -> Result<HistOut, Fail> {
     let res = catch_unwind(AssertUnwindSafe(|| -> Result<HistOut, Fail> {
         let mut ay = chip(false, 1, 44100);
         let mut regs = [0u8; 16];
@@ -947,7 +948,7 @@ fn hist_case(ops: &[Op], tb: &Tables, verbose: bool) -> Result<HistOut, Fail> {
         let mut digest = fnv(&[8]);
         let mut first64: Vec<u64> = Vec::with_capacity(130);
         let mut judged = 0u32;
-        for t in 0..POST_TICKS {
+        for t in 0..post_ticks {
             let (l, r) = ay.verif_tick();
             let lv = ay.verif_levels();
             if t < 64 {
@@ -1054,7 +1055,7 @@ fn hist_case(ops: &[Op], tb: &Tables, verbose: bool) -> Result<HistOut, Fail> {
         }
         if verbose {
             println!("  history {:?}", ops);
-            println!("  final registers {:02x?}; TP {:?} NP {} EP {}; {} period judgements in {} ticks; digest {:016x}", &regs[..14], tp, np, ep, judged, POST_TICKS, digest);
+            println!("  final registers {:02x?}; TP {:?} NP {} EP {}; {} period judgements in {} ticks; digest {:016x}", &regs[..14], tp, np, ep, judged, post_ticks, digest);
         }
         Ok(HistOut { digest, nontrivial: judged > 0 })
     }));
@@ -1093,9 +1094,18 @@ fn decode_history(mut idx: u64, len: usize, alpha: &[Op], out: &mut Vec<Op>) {
 }
 
 fn history_search(ctx: &Ctx, col: &Collector, name: &str, alpha: &[Op], depth: usize, order_base: u64) {
-    let tb = measure_tables();
+    let tb = match guarded("tables:write_register/tick", || Ok(measure_tables())) {
+        Ok(t) => t,
+        Err(f) => {
+            col.fail((order_base, 0, 0), &f.0, &f.1, || json!({"kind":"tables"}));
+            ctx.note(&format!("hist_{}_skipped_chip_panics_on_plain_dc_levels", name), json!(true));
+            return;
+        }
+    };
+    let post_ticks = if ctx.thorough() { 2048 } else { 1024 };
     let sink: Mutex<HashSet<u64>> = Mutex::new(HashSet::new());
     let n = alpha.len() as u64;
+    let judged_total = std::sync::atomic::AtomicU64::new(0);
     let mut total = 0u64;
     for len in 0..=depth {
         let count = n.pow(len as u32);
@@ -1113,17 +1123,17 @@ fn history_search(ctx: &Ctx, col: &Collector, name: &str, alpha: &[Op], depth: u
                 let mut nontrivial = 0;
                 for idx in s..e {
                     decode_history(idx, len, alpha, ops);
-                    match hist_case(ops, &tb, false) {
+                    match hist_case(ops, &tb, post_ticks, false) {
                         Ok(o) => {
                             w.set.insert(o.digest);
                             nontrivial += o.nontrivial as u64;
                         }
-                        Err(f) => col.fail((order_base + len as u64, idx, 0), &f.0, &f.1, || json!({"kind":"hist","ops":ops_json(ops)})),
+                        Err(f) => col.fail((order_base + len as u64, idx, 0), &f.0, &f.1, || json!({"kind":"hist","ops":ops_json(ops),"post_ticks":post_ticks})),
                     }
                 }
                 ctx.add_transitions(e - s);
                 ctx.add_traces(e - s);
-                ctx.add_nontrivial(nontrivial);
+                judged_total.fetch_add(nontrivial, std::sync::atomic::Ordering::Relaxed);
             },
         );
     }
@@ -1140,6 +1150,7 @@ fn history_search(ctx: &Ctx, col: &Collector, name: &str, alpha: &[Op], depth: u
     ctx.note(&format!("hist_{}_alphabet_size", name), json!(alpha.len()));
     ctx.note(&format!("hist_{}_depth", name), json!(depth));
     ctx.note(&format!("hist_{}_histories", name), json!(total));
+    ctx.note(&format!("hist_{}_histories_with_period_judgements", name), json!(judged_total.into_inner()));
     ctx.note(&format!("hist_{}_distinct_core_behaviours", name), json!(states.len()));
 }
 
@@ -1239,16 +1250,37 @@ pub fn run(tier: Tier, seed: u64, replay: Option<String>) -> i32 {
         return replay_case(&path);
     }
     let col = Collector::new();
-    core_checks(&ctx, &col);
-    api_checks(&ctx, &col);
-    history_search(&ctx, &col, "full", &full_alphabet(), 3, 100);
-    history_search(&ctx, &col, "reduced", &reduced_alphabet(), if ctx.thorough() { 5 } else { 4 }, 200);
-    port_checks(&ctx, &col);
+    // debugging aid: VERIF_C18_PARTS=AB... runs a subset of the sections (evidence then says so)
+    let parts = std::env::var("VERIF_C18_PARTS").unwrap_or_else(|_| "ABCD".to_string());
+    let all_parts = ["A", "B", "C", "D"].iter().all(|p| parts.contains(p));
+    if !all_parts {
+        ctx.note("sections_run_subset", json!(parts));
+    }
+    let t0 = std::time::Instant::now();
+    if parts.contains('A') {
+        core_checks(&ctx, &col);
+    }
+    let t1 = std::time::Instant::now();
+    if parts.contains('B') {
+        api_checks(&ctx, &col);
+    }
+    let t2 = std::time::Instant::now();
+    if parts.contains('C') {
+        history_search(&ctx, &col, "full", &full_alphabet(), 3, 100);
+        history_search(&ctx, &col, "reduced", &reduced_alphabet(), if ctx.thorough() { 5 } else { 4 }, 200);
+    }
+    let t3 = std::time::Instant::now();
+    if parts.contains('D') {
+        port_checks(&ctx, &col);
+    }
+    if std::env::var("VERIF_TIMING").is_ok() {
+        eprintln!("timing: core {:.1}s api {:.1}s histories {:.1}s ports {:.1}s", (t1 - t0).as_secs_f64(), (t2 - t1).as_secs_f64(), (t3 - t2).as_secs_f64(), t3.elapsed().as_secs_f64());
+    }
     ctx.sample(json!({"part":"hist","example": ops_json(&[Op::W(7, 0x0F), Op::G(7), Op::W(13, 0x0F), Op::G(1000)])}));
     col.flush(&ctx);
     ctx.finish(
-        "E-PROD + E-BFS. Core (chip tick = f_clk/8, hooks verif_tick/verif_levels): tone periods x 3 channels (thorough: all 4096 incl. 0; quick: TP<64, TP>4032, every 7th) toggle count and exact half period on the raw output; R6 values: noise clock count and interval; 16 shapes x EP {1,2,3,255,256,4095,65535} x 100 steps against the documented ramp pattern (constant phase free), amplitude monotone in level; all 256 R7 values x 3 channels against (tone|off)&(noise|off) built from measured tone-only/noise-only waves; all 256 volume register values x 3 channels x AY/YM; 7 stereo modes x 3 channels x AY/YM. API: 12 sample rates x 4 programmes finite and |s|<=4; tone frequency from threshold crossings within 1 %. Histories: every sequence of <=3 operations over 99 ops (16 registers x {00,01,0F,10,1F,FF}, generate 1/7/1000) and of <=4 (quick) / <=5 (thorough) over a 24-op reduced alphabet, each replayed on a fresh chip: no panic, samples bounded, then 2048 chip ticks judged against the final register file (half periods, noise clock, envelope grid, gated output sum) and write-only R13-free histories against register-order writing. Ports: 256 select values x data alphabet x {48K+AY,128K} through CPU-executed OUT/IN. states = distinct post-history core behaviours; distinct = outcome digests",
-        true,
+        "E-PROD + E-BFS. Core (chip tick = f_clk/8, hooks verif_tick/verif_levels): all 4096 tone period values (incl. 0) x 3 channels: toggle count and exact half period on the raw output; R6 values: noise clock count and interval; 16 shapes x EP {1,2,3,255,256,4095,65535} x 100 steps against the documented ramp pattern (constant phase free), amplitude monotone in level; all 256 R7 values x 3 channels against (tone|off)&(noise|off) built from measured tone-only/noise-only waves; all 256 volume register values x 3 channels x AY/YM; 7 stereo modes x 3 channels x AY/YM. API: 12 sample rates x 4 programmes finite and |s|<=4; tone frequency from threshold crossings within 1 %. Histories: every sequence of <=3 operations over 99 ops (16 registers x {00,01,0F,10,1F,FF}, generate 1/7/1000) and of <=4 (quick) / <=5 (thorough) over a 24-op reduced alphabet, each replayed on a fresh chip: no panic, samples bounded, then 1024 (quick) / 2048 (thorough) chip ticks judged against the final register file (half periods, noise clock, envelope grid, gated output sum) and write-only R13-free histories against register-order writing. Ports: 256 select values x data alphabet x {48K+AY,128K} through CPU-executed OUT/IN. states = distinct post-history core behaviours; distinct = outcome digests",
+        all_parts,
         &[
             "tone/noise phase, exact analog sample values and the +-1 counting convention are not judged",
             "NP = 0 and EP = 0 are not judged; on the analog path tone frequencies at or above 0.45 x sample rate or 0.45 x chip tick rate (f_clk/8; this excludes TP=1, which AymPrecise renders as a constant mean level at every rate) are not judged",
@@ -1275,7 +1307,8 @@ fn replay_case(path: &str) -> i32 {
         "pan" => pan_case(b("ym"), u("mode") as u8, u("ch") as usize, true).map(|_| ()),
         "api-bounded" => api_bounded_case(u("rate") as usize, u("programme") as usize, u("millis") as usize, true).map(|_| ()),
         "api-tone" => api_tone_case(u("rate") as usize, u("tp") as u16, u("millis") as usize, true).map(|_| ()),
-        "hist" => hist_case(&ops_from(&c["ops"]), &measure_tables(), true).map(|_| ()),
+        "hist" => guarded("tables:write_register/tick", || Ok(measure_tables())).and_then(|tb| hist_case(&ops_from(&c["ops"]), &tb, (u("post_ticks") as usize).max(64), true).map(|_| ())),
+        "tables" => guarded("tables:write_register/tick", || Ok(measure_tables())).map(|_| ()),
         "port" => {
             let mut e = port_emu(b("m128"));
             port_case(&mut e, b("m128"), u("sel") as u8, u("data") as u8, true).map(|_| ())
